@@ -1,7 +1,16 @@
 """Registry: which parts make up each property's check (see DESIGN.md section 4)."""
-from vlib import GoBin, GoTest
+from vlib import GoBin, GoTest, McPart
+
+MC = 'github.com/whawty/auth/internal/verifmc'
+AGENT_RW = {'imports': {
+    'store.go': {'net/http': MC + '/vhttp', 'os/signal': MC + '/vsignal', 'time': MC + '/vtime'},
+    'hooks.go': {'os/exec': MC + '/vexec', 'time': MC + '/vtime'},
+    '*': {'time': MC + '/vtime'}}}
+
 
 ENGINES = [
+    {'name': 'mc', 'path': 'mc tools/mcrewrite harness/agentmc', 'serves_properties': ['C10'],
+     'kind_free_text': 'hand-written controlled scheduler + stateless/state-pruned DFS explorer for Go channel code, bound to the real source by an AST rewriter applied through go build -overlay'},
     {'name': 'seqx', 'path': 'harness/c01 harness/x', 'serves_properties': ['C01'],
      'kind_free_text': 'explicit-state BFS over operation sequences on the real store.Dir with a reference model (hand-written, Go)'},
 ]
@@ -18,5 +27,13 @@ CHECKS = {
                 'near-miss passwords are enumerated exhaustively per base password and parameter set.',
         'note': 'Small alphabets (2 users, <=5 passwords, 3 cheap parameter sets) stand for all; sequential execution only; the reference model is the property statement.',
         'parts': [GoBin('seqx', 'harness/c01')],
+    },
+    'C10': {
+        'level': 'model_checking',
+        'engine': 'mc',
+        'technique': 'stateless + state-pruned exhaustive schedule exploration of the real (mechanically rewritten) agent under a controlled scheduler; deadlock oracle',
+        'text': 'All interleavings (full reachability with state-key pruning for capacity-scaled systems, deviation-bounded under four canonical orders for the true queue capacities) of client requests against the real dispatcher/hooks/upgrader code; oracle: no reachable state without an enabled thread while a request is unanswered, daemons back at their loop heads at quiescence.',
+        'note': 'Channel-level scheduling points; modelled timers/exec/http; capacity scaling is an abstraction backed by the true-capacity runs; client mixes are the stated scenarios.',
+        'parts': [McPart('mc', 'C10', 'cmd/whawty-auth', ['harness/agentmc'], AGENT_RW)],
     },
 }
